@@ -207,6 +207,13 @@ def emitText (old : OldEnv) (new : Env) : Str :=
 
 /-! ## `--force` bookkeeping of the table actions on `(oldEnviron, os.environ)` -/
 
+/-- what `pushStack("env")` saves: `(os.environ, aliases, oldAliases)` -/
+structure Saved where
+  cur : Env
+  aliases : List (Str × Str)
+  oldAliases : List (Str × Option Str)
+  deriving DecidableEq, Repr
+
 structure SetupSt where
   old : OldEnv
   cur : Env
@@ -214,6 +221,9 @@ structure SetupSt where
   aliases : List (Str × Str) := []
   /-- `Eups.oldAliases` (`None` after `unsetAlias`) -/
   oldAliases : List (Str × Option Str) := []
+  /-- `Eups._stacks["env"]`: `(os.environ, aliases, oldAliases)` saved by `pushStack("env")`, top first.  `oldEnviron`
+  is not part of what is saved. -/
+  stack : List Saved := []
   deriving DecidableEq, Repr
 
 /-- `execute_envSet` with the expanded value `v` (`[]`: the expansion came back empty and the action returns
@@ -254,11 +264,27 @@ def aliasAct (force fwd : Bool) (k v : Str) (s : SetupSt) : SetupSt :=
              oldAliases := if oa.any (·.1 == k) then oa.map (fun p => if p.1 = k then (k, none) else p)
                            else oa ++ [(k, none)] }
 
+/-- `pushStack("env")` (before an optional or nested setup) -/
+def pushAct (s : SetupSt) : SetupSt := { s with stack := ⟨s.cur, s.aliases, s.oldAliases⟩ :: s.stack }
+
+/-- `popStack("env")`: the setup failed, its changes to `os.environ`, `aliases` and `oldAliases` are thrown away —
+what `--force` made `oldEnviron` forget stays forgotten (a pop on an empty stack is a programming error: no change) -/
+def popAct (s : SetupSt) : SetupSt :=
+  match s.stack with
+  | [] => s
+  | top :: r => { s with cur := top.cur, aliases := top.aliases, oldAliases := top.oldAliases, stack := r }
+
+/-- `dropStack("env")`: the setup succeeded, the saved state is discarded -/
+def dropAct (s : SetupSt) : SetupSt := { s with stack := s.stack.drop 1 }
+
 inductive Act
   | envSet (force fwd : Bool) (k v : Str)
   | path (force : Bool) (k v : Str)
   | unset (k : Str)
   | alias (force fwd : Bool) (k v : Str)
+  | push
+  | pop
+  | drop
   deriving DecidableEq, Repr
 
 def Act.run (pinned : Bool) : Act → SetupSt → SetupSt
@@ -266,6 +292,9 @@ def Act.run (pinned : Bool) : Act → SetupSt → SetupSt
   | .path f k v, s => if pinned then pathActPinned f k v s else pathAct f k v s
   | .unset k, s => unsetAct k s
   | .alias f d k v, s => aliasAct f d k v s
+  | .push, s => pushAct s
+  | .pop, s => popAct s
+  | .drop, s => dropAct s
 
 def runActs (pinned : Bool) (acts : List Act) (base : Env) : SetupSt :=
   acts.foldl (fun s a => a.run pinned s) { old := OldEnv.ofEnv base, cur := base }
